@@ -30,12 +30,12 @@ def w_plain_and_secured() -> Part:
     try:
         for name, apdu in PLAIN_APDUS.items():
             for code in (0x29,):
-                for ga, keyed in ((KEYED, True), (UNKEYED, False)):
+                for (ga, keyed), sender in [(g, s) for g in ((KEYED, True), (UNKEYED, False)) for s in (SENDER, 0x1109, 0x0000)]:
                     rx = Receiver({KEYED: KEY}, {SENDER: 0})
-                    got, issues, exc = rx.feed(plain_frame(SENDER, ga, apdu, code=code))
+                    got, issues, exc = rx.feed(plain_frame(sender, ga, apdu, code=code))
                     part.evaluations += 1
                     part.nontrivial += 1
-                    case = {"kind": "plain", "apdu": name, "keyed": keyed}
+                    case = {"kind": "plain", "apdu": name, "keyed": keyed, "sender": sender}
                     if exc is not None:
                         part.viol(exc_sig("plain-frame-raises", exc), f"{case}: {exc!r}", case)
                     elif keyed and (got or calls):
